@@ -3,6 +3,7 @@ mod coord;
 mod edits;
 mod exec;
 mod gen;
+mod grammar;
 mod host;
 mod minimize;
 mod model;
@@ -78,6 +79,23 @@ fn main() {
             let s = std::fs::read_to_string(&args[2]).expect("read run file");
             let run: model::Run = serde_json::from_str(&s).expect("parse run file");
             let opts = exec::ExecOpts { progress: args.iter().any(|a| a == "--progress"), open_findings: if args.iter().any(|a| a == "--with-findings") { coord::load_findings() } else { vec![] }, trace: args.iter().any(|a| a == "--trace"), ..Default::default() };
+            if opts.progress {
+                // what the probe in beff-core shows about the call that is running (read by the
+                // parent if this process has to be killed); decides nothing in the run itself
+                std::thread::spawn(|| {
+                    let mut last = (0u64, 0u64);
+                    loop {
+                        std::thread::sleep(std::time::Duration::from_millis(250));
+                        let now = beff_core::verif_probe::read();
+                        if now != last && now.0 >= 100_000 {
+                            last = now;
+                            let mut o = std::io::stdout().lock();
+                            let _ = writeln!(o, "probe {} {}", now.0, now.1);
+                            let _ = o.flush();
+                        }
+                    }
+                });
+            }
             let out = exec::execute(&run, &opts);
             let mut o = std::io::stdout().lock();
             let _ = writeln!(o, "RESULT {}", serde_json::to_string(&out).unwrap());
@@ -97,6 +115,12 @@ fn main() {
             // sim aliascycle <project.json> : verdict of the KF-C04-4 input-feature detector
             let p: model::Project = serde_json::from_str(&std::fs::read_to_string(&args[2]).unwrap()).unwrap();
             println!("{:?}", edits::noncontractive_alias_cycle(&p.files));
+            0
+        }
+        "grammar" => {
+            // sim grammar <seed> : print a grammar-generated project (debugging aid)
+            let p = grammar::grammar_project(args[2].parse().unwrap());
+            println!("{}", serde_json::to_string_pretty(&p).unwrap());
             0
         }
         "synthetic" => {
